@@ -1,9 +1,13 @@
 import CacheProofs.Props.C18
 import CacheProofs.Props.C18F
-open Cache
+import CacheProofs.Props.C18C
+open Cache Cache.Prims
 #print axioms C18_totals_are_sums
 #print axioms C18_step_counts
 #print axioms C18_backend_totals
 #print axioms C18_cleanup_metrics
 #print axioms C18_failover_totals
 #print axioms C18_refreshed_counts_restores
+#print axioms C18_syncmap_removals_counted_exactly
+#print axioms C18_syncmap_entries_conserved
+#print axioms C18_blind_sweep_overcounts
